@@ -1422,10 +1422,102 @@ pub fn gen_project(rng: &mut Rng) -> Project {
     project
 }
 
+// ---------------------------------------------------------------------------------------------
+// Template workload: a function annotated with its OWN (non-standard) calling convention.
+// The main oracle handles one convention per program; this template covers "each parameter register of the
+// function's calling convention" for functions whose convention differs from the project's standard one
+// (e.g. the Linux syscall convention with R10 on x86-64): straight-line / diamond functions without calls in which
+// the extra register is read in the entry block before any write - it must be reported, no path reasoning needed.
+
+pub fn alt_cconv_case(rng: &mut Rng) -> (Project, Vec<String>) {
+    let extra = *rng.pick(&["R10", "R11", "R12"]);
+    let mut n = 0u32;
+    let mut t = |p: &str| -> Tid {
+        n += 1;
+        tid(&format!("{p}_alt_{n}"), &format!("{:04x}", 0x3000 + n * 4))
+    };
+    let std_reg = *rng.pick(&["RDI", "RSI", "RDX"]);
+    let mut must: Vec<String> = vec![extra.to_string()];
+    let mut defs = Vec::new();
+    // optional unrelated prefix that does not touch `extra`
+    if rng.bool() {
+        defs.push(assign(t("d"), reg("RAX"), e_bin(BinOpType::IntAdd, e_reg(std_reg), e_const(1, 8))));
+        must.push(std_reg.to_string());
+    }
+    match rng.below(5) {
+        0 => defs.push(assign(t("d"), reg("RBX"), e_bin(BinOpType::IntAdd, e_reg(extra), e_const(rng.range_i64(1, 64), 8)))),
+        1 => defs.push(load(t("d"), reg("RBX"), e_bin(BinOpType::IntAdd, e_reg(extra), e_const(8, 8)))),
+        2 => defs.push(store(t("d"), e_reg(extra), e_const(0, 8))),
+        3 => defs.push(assign(t("d"), reg("RBX"), e_reg(extra))),
+        _ => defs.push(assign(t("d"), var("ZF", 1), e_bin(BinOpType::IntEqual, e_reg(extra), e_const(0, 8)))),
+    }
+    // overwrite afterwards (must not matter)
+    if rng.bool() {
+        defs.push(assign(t("d"), reg(extra), e_const(0, 8)));
+    }
+    let b0 = tid("blk_alt_0", "alt00");
+    let b1 = tid("blk_alt_1", "alt01");
+    let two_blocks = rng.bool();
+    let mut blocks = Vec::new();
+    if two_blocks {
+        blocks.push(blk(b0, defs, vec![jmp(t("j"), Jmp::Branch(b1.clone()))]));
+        blocks.push(blk(b1, vec![assign(t("d"), reg("RCX"), e_reg("RAX"))], vec![jmp(t("j"), Jmp::Return(e_reg("RAX")))]));
+    } else {
+        blocks.push(blk(b0, defs, vec![jmp(t("j"), Jmp::Return(e_reg("RAX")))]));
+    }
+    let mut f = sub(tid("sub_alt", "alt00"), "alt", blocks);
+    f.term.calling_convention = Some("__altcall".to_string());
+    let entry = f.tid.clone();
+    let mut project = project_x64(program(vec![f], vec![], Some(entry)));
+    let mut alt = project.calling_conventions["__stdcall"].clone();
+    alt.name = "__altcall".to_string();
+    alt.integer_parameter_register = ["RDI", "RSI", "RDX", extra, "R8", "R9"].iter().map(|r| reg(r)).collect();
+    alt.callee_saved_register.retain(|v| v.name != extra);
+    project.calling_conventions.insert("__altcall".to_string(), alt);
+    (project, must)
+}
+
+pub fn alt_cconv_check(project: &Project, must: &[String], rep: &mut Report) {
+    rep.eval();
+    let mut p = project.clone();
+    let res = guard(|| {
+        let _ = p.normalize_basic();
+        let graph = get_program_cfg(&p.program);
+        let (sigs, _logs) = compute_function_signatures(&p, &graph);
+        sigs.iter()
+            .find(|(t, _)| format!("{t}") == "sub_alt")
+            .map(|(_, sig)| sig.parameters.keys().filter_map(|loc| if let AbstractLocation::Register(v) = loc { Some(v.name.clone()) } else { None }).collect::<BTreeSet<String>>())
+    });
+    let case = || json!({"kind": "alt-cconv", "project": project_to_json(project), "must": must});
+    match res {
+        Err(msg) => rep.violation(format!("alt-cconv:panic:{}", panic_site(&msg)), None, format!("function signature analysis panicked on a function with its own calling convention: {msg}"), case(), 5),
+        Ok(None) => rep.inconclusive("alt-cconv:no-signature-for-function"),
+        Ok(Some(reported)) => {
+            for r in must {
+                if !reported.contains(r) {
+                    rep.violation(
+                        "miss:own-calling-convention",
+                        None,
+                        format!("function `alt` is annotated with calling convention __altcall (parameters RDI,RSI,RDX,{},R8,R9) and reads the entry value of {r} in its entry block, but the reported register parameters are {reported:?}\n{}", must[0], show_program(&project.program.term)),
+                        case(),
+                        5,
+                    );
+                }
+            }
+            rep.obs("workload:own-calling-convention");
+            rep.nontrivial(fp_of(&project.program) ^ 0xa17c);
+        }
+    }
+}
+
 fn run(cfg: &Cfg) -> Report {
     let shards = cfg.tier.pick(256usize, 2048usize);
     let per_shard = cfg.tier.pick(120usize, 320usize);
     let mut rep = par_shards(cfg, "c14", shards, |idx, rng, rep| {
+        for _ in 0..4 {
+            let (project, must) = alt_cconv_case(rng);
+            alt_cconv_check(&project, &must, rep);
+        }
         for i in 0..per_shard {
             if TIMEOUTS.load(std::sync::atomic::Ordering::SeqCst) >= MAX_TIMEOUTS {
                 rep.inconclusive("program-skipped-after-repeated-timeouts");
@@ -1518,6 +1610,13 @@ fn replay(_cfg: &Cfg, case: &Value) -> Report {
             Ok(Some(raw)) => check_case(&raw, false, &mut rep, true),
             Ok(None) => rep.note(format!("unknown built-in witness {key}")),
             Err(m) => rep.note(format!("building the witness {key} panicked: {m}")),
+        }
+        return rep;
+    }
+    if case["kind"] == json!("alt-cconv") {
+        if let Ok(project) = project_from_json(&case["project"]) {
+            let must: Vec<String> = case["must"].as_array().map(|a| a.iter().filter_map(|x| x.as_str().map(|s| s.to_string())).collect()).unwrap_or_default();
+            alt_cconv_check(&project, &must, &mut rep);
         }
         return rep;
     }
